@@ -123,25 +123,25 @@ def subBase (cx : NumCtx) (old v : Rat) : Rat :=
 def findSupply? (ss : List Supply) (t : String) : Option Supply := ss.find? (fun s => s.tok = t)
 def findDebt? (ds : List Debt) (t : String) : Option Debt := ds.find? (fun d => d.tok = t)
 
-def setSupplyBase : List Supply → String → Rat → List Supply
-  | [], _, _ => []
-  | s :: r, t, b => if s.tok = t then { s with base := b } :: r else s :: setSupplyBase r t b
+/-- `d[k].field = …` on the first entry satisfying `q` -/
+def updFirst {α : Type} (q : α → Bool) (f : α → α) : List α → List α
+  | [] => []
+  | x :: r => if q x then f x :: r else x :: updFirst q f r
 
-def setSupplyColl : List Supply → String → Bool → List Supply
-  | [], _, _ => []
-  | s :: r, t, c => if s.tok = t then { s with coll := c } :: r else s :: setSupplyColl r t c
+def setSupplyBase (ss : List Supply) (t : String) (b : Rat) : List Supply :=
+  updFirst (fun s => decide (s.tok = t)) (fun s => { s with base := b }) ss
 
-def delSupply : List Supply → String → List Supply
-  | [], _ => []
-  | s :: r, t => if s.tok = t then r else s :: delSupply r t
+def setSupplyColl (ss : List Supply) (t : String) (c : Bool) : List Supply :=
+  updFirst (fun s => decide (s.tok = t)) (fun s => { s with coll := c }) ss
 
-def setDebtBase : List Debt → String → Rat → List Debt
-  | [], _, _ => []
-  | d :: r, t, b => if d.tok = t then { d with base := b } :: r else d :: setDebtBase r t b
+/-- `del _supplies[t]` -/
+def delSupply (ss : List Supply) (t : String) : List Supply := ss.eraseP (fun s => decide (s.tok = t))
 
-def delDebt : List Debt → String → List Debt
-  | [], _ => []
-  | d :: r, t => if d.tok = t then r else d :: delDebt r t
+def setDebtBase (ds : List Debt) (t : String) (b : Rat) : List Debt :=
+  updFirst (fun d => decide (d.tok = t)) (fun d => { d with base := b }) ds
+
+/-- `del _borrows[t]` -/
+def delDebt (ds : List Debt) (t : String) : List Debt := ds.eraseP (fun d => decide (d.tok = t))
 
 /-- `base_amount = sub_base_amount(..)` followed by `del` when it became 0 -/
 def putSupplyBase (ss : List Supply) (t : String) (b : Rat) : List Supply :=
@@ -149,6 +149,18 @@ def putSupplyBase (ss : List Supply) (t : String) (b : Rat) : List Supply :=
 
 def putDebtBase (ds : List Debt) (t : String) (b : Rat) : List Debt :=
   if b = 0 then delDebt ds t else setDebtBase ds t b
+
+/-- `get_supply(t).amount`, 0 when `t` is not supplied -/
+def supplyAmountOf (cx : NumCtx) (p : Portfolio) (t : String) : Rat :=
+  match findSupply? p.supplies t with
+  | some s => s.amount cx
+  | none => 0
+
+/-- `get_borrow(t).amount`, 0 when `t` is not borrowed -/
+def debtAmountOf (cx : NumCtx) (p : Portfolio) (t : String) : Rat :=
+  match findDebt? p.debts t with
+  | some d => d.amount cx
+  | none => 0
 
 /-- exceptions the modelled code can raise -/
 inductive Exc
